@@ -306,8 +306,16 @@ impl sam::alignment::Record for Record {
     }
 
     fn data_ref(&self) -> sam::alignment::record::DataRef<'_> {
-        let src = self.data().as_bytes();
-        sam::alignment::record::DataRef::FieldEncoded(src)
+        use sam::alignment::record::DataRef;
+
+        let data = self.data();
+
+        // The raw data still holds the overflowing CIGAR field, which is rewritten by the encoder.
+        if data.skips_cigar() {
+            DataRef::Data(Box::new(data))
+        } else {
+            DataRef::FieldEncoded(data.as_bytes())
+        }
     }
 }
 
